@@ -107,6 +107,15 @@ def run(ctx):
         "strconv.ParseFloat returns a finite value whenever it returns no error, on number-token texts (hypothesis of parse_output_expressible / parse_write_parse; asserted on every number token of every case: LAWFAIL records)",
         "Go enum fields of the document hold declared constants; slices hold no nil entries",
     ]
+    # the model's writer on the GENERATED documents themselves (shipped as Gallina terms), evaluated inside Coq, against
+    # the text dbc.Write made of them: every run, more documents in the thorough tier
+    gw = dbccheck.vm_generated_writer(ctx, cases, want=12 if ctx.tier == "quick" else 150)
+    ctx.coverage["writer_on_generated_documents"] = {k: v for k, v in gw.items() if k != "log_tail"}
+    ctx.coverage["writer_on_generated_documents"]["driver_projection_equal_and_rewritten"] = dbccheck.last_genwritten
+    if gw["mismatches"] or not gw["negative_detected"] or gw["cases"] < (12 if ctx.tier == "quick" else 100) or dbccheck.last_genwritten < 50:
+        ctx.violation("%s-model-writer-generated" % PID.lower(), "the model's writer applied to a GENERATED document does not give the text "
+                      "dbc.Write gives (or the comparison covered too little / its negative test was not detected): %s" % (
+                          gw["mismatches"][:5] or gw.get("log_tail", "")[-300:] or gw), {"generated_writer": gw}, found_input=False)
     if ctx.tier == "thorough":
         vm = dbccheck.vm_crosscheck(ctx, cases, want=80)
         ctx.coverage["vm_compute_crosscheck"] = {k: v for k, v in vm.items() if k != "log_tail"}
